@@ -1044,6 +1044,7 @@ class Vector():
 
 	# (current kind, wider kind) pairs _promote() knows how to convert
 	_PROMOTABLE = frozenset([
+		(bool, int), (bool, float), (bool, complex),
 		(int, float), (int, complex), (float, complex), (date, datetime),
 	])
 
@@ -1062,15 +1063,22 @@ class Vector():
 		if self._dtype.kind is target_kind:
 			return
 		
-		# Allow numeric promotions: int -> float, float -> complex
-		if target_kind is float and self._dtype.kind is int:
+		# Allow numeric promotions: bool -> int -> float -> complex
+		if target_kind is int and self._dtype.kind is bool:
+			old_tuple_id = id(self._underlying)
+			new_tuple = tuple(int(x) if x is not None else None for x in self._underlying)
+			_ALIAS_TRACKER.unregister(self, old_tuple_id)
+			self._underlying = new_tuple
+			_ALIAS_TRACKER.register(self, id(new_tuple))
+			self._dtype = DataType(int, nullable=self._dtype.nullable)
+		elif target_kind is float and self._dtype.kind in (bool, int):
 			old_tuple_id = id(self._underlying)
 			new_tuple = tuple(float(x) if x is not None else None for x in self._underlying)
 			_ALIAS_TRACKER.unregister(self, old_tuple_id)
 			self._underlying = new_tuple
 			_ALIAS_TRACKER.register(self, id(new_tuple))
 			self._dtype = DataType(float, nullable=self._dtype.nullable)
-		elif target_kind is complex and self._dtype.kind in (int, float):
+		elif target_kind is complex and self._dtype.kind in (bool, int, float):
 			old_tuple_id = id(self._underlying)
 			new_tuple = tuple(complex(x) if x is not None else None for x in self._underlying)
 			_ALIAS_TRACKER.unregister(self, old_tuple_id)
